@@ -45,8 +45,10 @@ func (l *TransientLockMap) Lock(ctx context.Context, key string) bool {
 		lock.refcount++ // incremented while holding _map_ lock
 		return lock
 	}()
+	verifYield("lock.entered", key)
 
 	if !lock.Lock(ctx) {
+		verifYield("lock.giving-up", key)
 		l.returnLockObj(key, lock)
 		return false
 	}
@@ -65,8 +67,10 @@ func (l *TransientLockMap) Unlock(key string) {
 		}
 		return lock
 	}()
+	verifYield("unlock.found", key)
 
 	lock.Unlock()
+	verifYield("unlock.released", key)
 	l.returnLockObj(key, lock)
 }
 
